@@ -180,6 +180,11 @@ def make_strategy_class():
             self.lab.record("process_market_book", self, market, market_book, idx=idx)
 
         def process_orders(self, market, orders):
+            # replacement orders are created by the execution layer: the strategy learns about them here and may
+            # act on them like on any of its orders
+            for o in orders:
+                if not any(o is x for x in self.my_orders):
+                    self.my_orders.append(o)
             self.lab.record("process_orders", self, market, market.market_book)
             self._maybe_fault("process_orders")
 
